@@ -49,8 +49,16 @@ def rules(model: Model, tier: str) -> List[RuleResult]:
     _adjoint_system(model, fc, H)
     hermitian_idiom(model, H, ADJ_FILES, H_EXCEPTIONS)
     _signs(fc, S)
+    from ..rules import linopalg
+    ADJ = RuleResult(PROP, "C02-A", "the adjoint used by the backward solve: composed operators' _rmv is the formal adjoint of _mv", min_instances=4)
+    STL = RuleResult(PROP, "C02-F", "the adjoint operator is derived afresh on every backward: LinearOperator.H / AdjointLinearOperator keep no cached state", min_instances=5)
+    linopalg.adjoint_structure(model, ADJ)
+    _lin = model.cls(linopalg.LINOP, "LinearOperator")
+    _adj = model.cls(linopalg.LINOP, "AdjointLinearOperator")
+    linopalg.stateless(model, STL, classes=[_lin], only_methods={"H", "m", "mv", "mm", "rmv", "rmm", "fullmatrix", "uselinopparams"})
+    linopalg.stateless(model, STL, classes=[_adj])
     _hy = ac.hygiene_rules(model, ac.get_fncls(model, 'solve_torchfcn'), PROP, min_copies=2, min_opt=2)
-    return [R1, R2, R3, R4, R5, R6, H, S, *_hy]
+    return [R1, R2, R3, R4, R5, R6, H, S, *_hy, ADJ, STL]
 
 
 def _backward_group_order(fc, R6: RuleResult):
